@@ -469,6 +469,11 @@ func errorDisciplineRule(c *Ctx, r5 string) {
 						if len(x.Ret.Results) > 1 && isBoolLit(f.Pkg.TypesInfo, x.Ret.Results[0], false) {
 							continue
 						}
+						// interprocedural fact: `ok, err := callee()` where the callee returns a non-nil error
+						// whenever it returns false; the return is then reachable only with !ok or err != nil
+						if e := g.ErrOperand(x); e != nil && nonNilBySummary(w, g, x, e) {
+							continue
+						}
 						offs = append(offs, Offence{x, r.Path(x.ID)})
 					}
 				}
@@ -477,4 +482,79 @@ func errorDisciplineRule(c *Ctx, r5 string) {
 		}
 	}
 	c.Check(n >= 20, r5, "storage / lock calls on the commit path inventoried", token.NoPos, fmt.Sprintf("%d calls in %d functions", n, len(fs)), fmt.Sprintf("only %d found", n), nil)
+}
+
+// falseImpliesErr: f has results (bool, ..., error) and every return whose first result is the literal
+// false carries a provably non-nil error (and no return has a non-literal first result).
+func falseImpliesErr(w *World, f *Func) bool {
+	if f == nil || f.Obj == nil {
+		return false
+	}
+	sig := f.Obj.Type().(*types.Signature)
+	if sig.Results().Len() < 2 || !isErrorType(sig.Results().At(sig.Results().Len()-1).Type()) {
+		return false
+	}
+	if b, ok := sig.Results().At(0).Type().Underlying().(*types.Basic); !ok || b.Kind() != types.Bool {
+		return false
+	}
+	g := w.G(f)
+	n := 0
+	for _, x := range g.Nodes {
+		if x.Ret == nil {
+			continue
+		}
+		n++
+		if len(x.Ret.Results) != sig.Results().Len() {
+			return false
+		}
+		switch {
+		case isBoolLit(f.Pkg.TypesInfo, x.Ret.Results[0], true):
+		case isBoolLit(f.Pkg.TypesInfo, x.Ret.Results[0], false):
+			if g.ClassifyReturn(x) != RetNonNil {
+				return false
+			}
+		default:
+			return false
+		}
+	}
+	return n > 0
+}
+
+// nonNilBySummary: return node x returns identifier e, defined together with a boolean by one call of a
+// function satisfying falseImpliesErr, and x is reachable only through the boolean's false edge or the
+// error's non-nil edge.
+func nonNilBySummary(w *World, g *Graph, x *GNode, e ast.Expr) bool {
+	info := g.F.Pkg.TypesInfo
+	id, ok := ast.Unparen(e).(*ast.Ident)
+	if !ok {
+		return false
+	}
+	ev, ok := info.Uses[id].(*types.Var)
+	if !ok {
+		return false
+	}
+	for _, n := range g.Nodes {
+		for _, cs := range n.Calls {
+			if g.errVarOfCall(n, cs) != ev {
+				continue
+			}
+			okv := g.lhsVarOfCall(n, cs, 0)
+			if okv == nil || !falseImpliesErr(w, w.CalleeFunc(cs)) {
+				continue
+			}
+			okConds := g.condNodes(func(c ast.Expr) bool { i, isID := c.(*ast.Ident); return isID && info.Uses[i] == types.Object(okv) })
+			cut := func(from *GNode, ed Edge) bool {
+				if edgeCut(okConds, 2)(from, ed) {
+					return true
+				}
+				cv, tm, isTest := g.condNilTest(from)
+				return isTest && cv == ev && (ed.Cond == 1) == tm
+			}
+			r := g.Reach(g.after(n), nil, cut)
+			if !r.Seen[x.ID] {
+				return true
+			}
+		}
+	}
+	return false
 }
